@@ -663,6 +663,15 @@ def run(seed, tier, driver):
             _trace('REST correspondence done for peer ' + kind)
             if kind == 'as4':
                 corr_construct(res, xd, r, 'quick' if tier == 'search' else tier, peers, decoded)
+        # the same agent after EARLIER sessions with other peers (one without the 4-octet-AS capability, one without any):
+        # what the REST interface accepts and produces for the present peer does not depend on who was there before
+        rest = I.Rest('as4', history=('as2', 'nocaps'))
+        if rest.state != 'ESTABLISHED':
+            res.disagree('session setup after earlier sessions', 'as2, nocaps, as4', rest.state, 'ESTABLISHED')
+        else:
+            for endpoint in ('json_to_bin', 'send/update'):
+                oracle_ext(res, xd, rest, endpoint, cases[::3] if tier == 'quick' else cases)
+            res.stats.hit('oracle_after_earlier_sessions')
     finally:
         xd.close()
     return res
